@@ -387,6 +387,29 @@ func c11GraphCases(r *Run, id *int) []c11Case {
 		{"f0.vuego": `<template include="f1.vuego"><template #a><template include="f1.vuego"><template #a>deep</template></template></template></template>`, "f1.vuego": `<div><slot name="a"></slot><slot name="a"></slot></div>`},
 		{"f0.vuego": `<template include="f1.vuego"><i>s</i></template>`, "f1.vuego": `<template include="f2.vuego"><slot></slot><slot></slot></template>`, "f2.vuego": `<u><slot></slot><slot></slot></u>`},
 	}
+	// one supplied slot used several times (the evaluated DOM must stay a tree for the serialiser to terminate)
+	contents := []string{`plain text`, `<b>el</b>`, `<template v-html="v"></template>`, `<template v-if="yes"><i>c</i></template>`, `<template v-for="x in one"><i>{{ x }}</i></template>`,
+		`<template><u>w</u></template>`, `<template include="leaf.vuego"></template>`, `<template v-html="v"></template><template v-html="v"></template>`, `t<template v-html="v"></template>t`, `<p v-html="v"></p>`, `<template v-text="v"></template>`}
+	uses := []string{`<slot%s></slot>`, `<slot%s></slot><slot%s></slot>`, `<div><slot%s></slot><hr><slot%s></slot></div>`, `<header><slot%s></slot></header><footer><slot%s></slot></footer>`,
+		`<ul><li v-for="i in one"><slot%s></slot><slot%s></slot></li></ul>`, `<slot%s></slot><slot%s></slot><slot%s></slot>`}
+	for ci, content := range contents {
+		for ui, use := range uses {
+			for _, named := range []bool{false, true} {
+				attr, open, close_ := "", "", ""
+				if named {
+					attr, open, close_ = ` name="cap"`, `<template #cap>`, `</template>`
+				}
+				comp := strings.ReplaceAll(use, "%s", attr)
+				files := map[string]string{
+					"f0.vuego":   `<template include="comp.vuego">` + open + content + close_ + `</template>`,
+					"comp.vuego": `<figure>` + comp + `</figure>`,
+					"leaf.vuego": `<em>leaf</em>`,
+				}
+				*id++
+				cases = append(cases, c11Case{ID: *id, Family: "slot-shapes", Files: files, Entry: []string{"load", "vue"}[(ci+ui)%2], Page: "f0.vuego", Data: "string"})
+			}
+		}
+	}
 	for _, files := range extra {
 		for _, e := range []string{"load", "vue"} {
 			*id++
@@ -547,7 +570,7 @@ func init() { streams["C11"] = runC11 }
 
 func runC11(r *Run) {
 	r.Imports = []string{"Model.Depth"}
-	r.Rule("isolated worker processes (64 MB maximum stack, address-space limit, 4 s per case): (include-graph) every include graph over 3 files with 0-2 includes per file, includes placed plainly, inside v-for and inside v-if, entered through Load.Render, Vue.Render and RenderFragment; (cycle-shapes) cycles through slot content, slot fallbacks, layouts and nested named slots; " +
+	r.Rule("isolated worker processes (64 MB maximum stack, address-space limit, 4 s per case): (include-graph) every include graph over 3 files with 0-2 includes per file, includes placed plainly, inside v-for and inside v-if, entered through Load.Render, Vue.Render and RenderFragment; (cycle-shapes) cycles through slot content, slot fallbacks, layouts and nested named slots; (slot-shapes) 11 kinds of supplied slot content (text, element, <template v-html / v-if / v-for / v-text>, wrapper, include) x 6 ways a component uses the slot once, twice or three times x default / named; " +
 		"(wrong-type) 32 directive positions x 39 data values (every kind: nil pointers, typed nil, unexported fields, non-string map keys, functions, channels, panicking Stringer, deep and cyclic structs / maps / slices); (root-data) each value as the root data; (functions) panicking, nil, non-function, wrong-arity, multi-result template functions as filters and calls; (bytes) spliced, token-soup and random byte strings as template sources and front-matter. " +
 		"Outcome must be ok or error: a panic reaching the caller, a timeout or a dead worker is a violation")
 	id := 0
